@@ -2,6 +2,7 @@ import Anysystem.Props.C04
 import Anysystem.Proofs.R4
 import Anysystem.Proofs.R5Snap
 import Anysystem.Proofs.R5Rel
+import Anysystem.Proofs.R5Main
 #print axioms Anysystem.snapshot_first_offered
 #print axioms Anysystem.snapshot_timers_in_firing_order
 #print axioms Anysystem.snapshotSource_complete
@@ -17,3 +18,6 @@ import Anysystem.Proofs.R5Rel
 #print axioms Anysystem.snapshot_sim'
 #print axioms Anysystem.timedRel_snapshot
 #print axioms Anysystem.ticks_snapTimeLaws
+#print axioms Anysystem.sim_run_covered_partial
+#print axioms Anysystem.sim_step_matched
+#print axioms Anysystem.R5MainDemo.demo_covered
